@@ -67,7 +67,7 @@ func TestVerif_C49(t *testing.T) {
 			var stopTook time.Duration
 			tunRefuses := true
 			stopped := false
-			synctest.Test(t, func(t *testing.T) {
+			bubblePanic := vBubble(t, func(t *testing.T) {
 				n := vNewNet(t)
 				lh := n.AddNode(cert.Version2, "L", "10.128.0.1/24", m{"lighthouse": m{"am_lighthouse": true, "interval": 1}})
 				lhm := m{"lighthouse": m{"hosts": []string{"10.128.0.1"}, "interval": 1},
@@ -166,6 +166,9 @@ func TestVerif_C49(t *testing.T) {
 					synctest.Wait()
 				}
 			})
+			if bubblePanic != nil && len(leaks) == 0 {
+				t.Fatalf("verif: bubble ended abnormally without a recorded leak: %v", bubblePanic)
+			}
 			res.Case(fmt.Sprintf("%v/%s", hist, target))
 			res.Traces++
 			if !stopped {
@@ -194,12 +197,12 @@ func TestVerif_C49(t *testing.T) {
 	_ = netip.Addr{}
 }
 
-var c49FuncRe = regexp.MustCompile(`(?m)^(github\.com/slackhq/nebula[^\s(]*)`)
+var c49FuncRe = regexp.MustCompile(`github\.com/slackhq/nebula([\w./]*(?:\(\*\w+\))?[\w.]*)\(`)
 
 // c49Func names the first nebula function on a goroutine's stack (the key of a leak).
 func c49Func(stack string) string {
 	if m := c49FuncRe.FindStringSubmatch(stack); m != nil {
-		return m[1]
+		return "nebula" + m[1]
 	}
 	return "unknown"
 }
